@@ -76,6 +76,9 @@ pub enum Cand {
     Inner,
     /// (Bind only) a node `a.map(x+500)` created afresh by every run of the bind function
     Fresh,
+    /// a tall chain `b.map(id).map(id).map(id).map(id)`, kept necessary by a pinned observer: a dependency on it lifts
+    /// the expert node above the lhs-change node of the regular bind of `via` programs
+    T,
 }
 
 impl Cand {
@@ -86,6 +89,7 @@ impl Cand {
             Cand::M => "m",
             Cand::Inner => "i",
             Cand::Fresh => "f",
+            Cand::T => "t",
         }
     }
     fn from_code(s: &str) -> Option<Cand> {
@@ -95,6 +99,7 @@ impl Cand {
             "m" => Cand::M,
             "i" => Cand::Inner,
             "f" => Cand::Fresh,
+            "t" => Cand::T,
             _ => return None,
         })
     }
@@ -134,6 +139,12 @@ pub struct Prog {
     pub inval: bool,
     /// observers on the dependant map over the expert node
     pub obs_d: bool,
+    /// the expert node is observed only *through a regular bind* `V = via'.bind(|s| if s { X } else { constant -1 })`
+    /// (`via' = map2(via, unit)`, so the bind's lhs-change node sits at height 2, above the driver and below an expert
+    /// node that depends on `T`): toggling `via` makes the expert node unnecessary / necessary again *in the middle of
+    /// a stabilise*, after its driver has already changed its dependencies or called make_stale (after seed C14-e).
+    /// `ObsX` / `DropX` then act on V. Only without Inner candidates and without invalidate.
+    pub via: bool,
 }
 
 impl Prog {
@@ -156,6 +167,7 @@ impl Prog {
             "stale": self.stale,
             "inval": self.inval,
             "obs_d": self.obs_d,
+            "via": self.via,
         })
     }
     pub fn from_json(j: &Json) -> Option<Prog> {
@@ -184,6 +196,7 @@ impl Prog {
             stale: j["stale"].as_bool()?,
             inval: j["inval"].as_bool()?,
             obs_d: j["obs_d"].as_bool()?,
+            via: j["via"].as_bool().unwrap_or(false),
         })
     }
 }
@@ -207,6 +220,8 @@ pub enum Act {
     Stale,
     /// Sum: ask the selector map to call invalidate on its next run
     Inval,
+    /// `via` programs: flip the var that decides whether the regular bind V returns the expert node or a constant
+    ToggleVia,
 }
 
 impl Act {
@@ -223,6 +238,7 @@ impl Act {
             Act::SetSw(_) => "SetSw",
             Act::Stale => "Stale",
             Act::Inval => "Inval",
+            Act::ToggleVia => "ToggleVia",
         }
     }
     pub fn to_json(&self) -> Json {
@@ -254,6 +270,7 @@ impl Act {
             "SetSw" => Act::SetSw(num()?),
             "Stale" => Act::Stale,
             "Inval" => Act::Inval,
+            "ToggleVia" => Act::ToggleVia,
             _ => return None,
         })
     }
@@ -347,6 +364,7 @@ struct CandNodes {
     a: Incr<i32>,
     b: Incr<i32>,
     m: Incr<i32>,
+    t: Option<Incr<i32>>,
 }
 
 impl CandNodes {
@@ -356,6 +374,7 @@ impl CandNodes {
             Cand::A => Some((ChildId { cand: c, gen: 0 }, self.a.clone())),
             Cand::B => Some((ChildId { cand: c, gen: 0 }, self.b.clone())),
             Cand::M => Some((ChildId { cand: c, gen: 0 }, self.m.clone())),
+            Cand::T => self.t.as_ref().map(|t| (ChildId { cand: c, gen: 0 }, t.clone())),
             Cand::Inner => {
                 let hb = h.borrow();
                 hb.stash.as_ref().map(|(g, n)| (ChildId { cand: c, gen: *g }, n.clone()))
@@ -517,6 +536,10 @@ struct Real {
     cand_a: Incr<i32>,
     cand_b: Incr<i32>,
     m: Incr<i32>,
+    t: Option<Incr<i32>>,
+    via: Option<Var<bool>>,
+    /// `via` programs: the regular bind over the expert node
+    v: Option<Incr<i32>>,
     x: Incr<i32>,
     d: Incr<i32>,
     state: IncrState,
@@ -544,7 +567,8 @@ fn build(prog: &Prog, h: &H) -> Real {
     } else {
         None
     };
-    let nodes = CandNodes { cands: prog.cands.clone(), a: a.watch(), b: b.watch(), m: m.clone() };
+    let t: Option<Incr<i32>> = if prog.cands.contains(&Cand::T) { Some(b.map(|x| *x).map(|x| *x).map(|x| *x).map(|x| *x)) } else { None };
+    let nodes = CandNodes { cands: prog.cands.clone(), a: a.watch(), b: b.watch(), m: m.clone(), t: t.clone() };
     let mut sel_var = None;
     let mut outer_var = None;
     let mut sw_var = None;
@@ -683,8 +707,22 @@ fn build(prog: &Prog, h: &H) -> Real {
             pins.push(bnd.observe());
         }
     }
+    if let Some(t) = &t {
+        pins.push(t.observe());
+    }
     let pin_driver = if prog.pin_driver { driver.as_ref().map(|d| d.observe()) } else { None };
-    Real { obs_x: None, obs_d: None, pins, pin_driver, cand_a: a.watch(), cand_b: b.watch(), a, b, k, sel: sel_var, outer: outer_var, sw: sw_var, m, x, d, state }
+    let (via, v) = if prog.via {
+        let via = state.var(true);
+        let unit = state.constant(());
+        let via2 = via.map2(&unit, |s: &bool, _: &()| *s);
+        let fallback = state.constant(-1i32);
+        let xx = x.clone();
+        let v = via2.bind(move |s: &bool| if *s { xx.clone() } else { fallback.clone() });
+        (Some(via), Some(v))
+    } else {
+        (None, None)
+    };
+    Real { obs_x: None, obs_d: None, pins, pin_driver, cand_a: a.watch(), cand_b: b.watch(), a, b, k, sel: sel_var, outer: outer_var, sw: sw_var, m, t, via, v, x, d, state }
 }
 
 // ---------------------------------------------------------------------------------------
@@ -721,6 +759,8 @@ struct Model {
     /// make_stale was called while the expert node was not needed; its recompute is still due
     stale_pending: bool,
     removed_stale_child: bool,
+    /// `via` programs: value of the via var
+    via: bool,
 }
 
 impl Model {
@@ -731,6 +771,7 @@ impl Model {
             Cand::M => self.a + 100,
             Cand::Inner => self.b + 1000 * self.kv,
             Cand::Fresh => self.a + 500,
+            Cand::T => self.b,
         }
     }
     fn x_dead(&self) -> bool {
@@ -810,7 +851,7 @@ impl ExpertWorld {
         let r = self.real.as_mut().expect("world was built");
         match a {
             Act::Stabilise => r.state.stabilise(),
-            Act::ObsX => r.obs_x = Some(r.x.observe()),
+            Act::ObsX => r.obs_x = Some(if prog.via { r.v.as_ref().unwrap().observe() } else { r.x.observe() }),
             Act::DropX => r.obs_x = None,
             Act::ObsD => r.obs_d = Some(r.d.observe()),
             Act::DropD => r.obs_d = None,
@@ -842,6 +883,7 @@ impl ExpertWorld {
                     Cand::A => r.cand_a.clone(),
                     Cand::B => r.cand_b.clone(),
                     Cand::M => r.m.clone(),
+                    Cand::T => r.t.clone().unwrap(),
                     Cand::Inner => {
                         let hb = h.borrow();
                         let (g, n) = hb.stash.as_ref().expect("SetOuter(inner) enabled only after the bind ran");
@@ -854,6 +896,10 @@ impl ExpertWorld {
                 r.outer.as_ref().unwrap().set(node);
             }
             Act::SetSw(i) => r.sw.as_ref().unwrap().set(*i as i32),
+            Act::ToggleVia => {
+                let via = r.via.as_ref().unwrap();
+                via.set(!via.get());
+            }
         }
     }
 
@@ -876,6 +922,7 @@ impl ExpertWorld {
                 m.outer_gen = m.gen;
             }
             Act::SetSw(i) => m.sw = *i as usize,
+            Act::ToggleVia => m.via = !m.via,
         }
     }
 
@@ -910,7 +957,7 @@ impl ExpertWorld {
             if let Some(o) = m.obs_d.as_mut() {
                 *o = true;
             }
-            m.nec = m.obs_x.is_some() || m.obs_d.is_some();
+            m.nec = (m.obs_x.is_some() && (!prog.via || m.via)) || m.obs_d.is_some();
             let via_x = m.nec && !m.x_dead() && prog.cons != Cons::Join;
             let bind_nec = prog.has_inner() && (prog.pin_bnd || via_x);
             if bind_nec && (!m.bind_ran || m.k != m.k_at_run) {
@@ -937,6 +984,8 @@ impl ExpertWorld {
         }
         // ---- the log
         let mut recomputes = 0usize;
+        // runs of the expert node logged after the (last) make_stale call of this stabilise
+        let mut recomputes_after_stale = 0usize;
         let mut stale_called = false;
         let mut inval_called = false;
         let mut at_prev_override: Vec<(u32, i32)> = vec![];
@@ -972,6 +1021,7 @@ impl ExpertWorld {
                 Ev::FreshMade => self.note("fresh_rhs_created"),
                 Ev::MakeStale => {
                     stale_called = true;
+                    recomputes_after_stale = 0;
                     self.note("make_stale_called");
                 }
                 Ev::Invalidate => {
@@ -981,6 +1031,7 @@ impl ExpertWorld {
                 Ev::Oops(what) => vs.push(Violation::new("MACHINERY", "machinery", "harness", what.to_string())),
                 Ev::Recompute { snap, .. } => {
                     recomputes += 1;
+                    recomputes_after_stale += 1;
                     self.note("expert_recomputes");
                     if prog.cons == Cons::Sum {
                         let reobs = self.model.reobs_pending;
@@ -1054,7 +1105,7 @@ impl ExpertWorld {
             } else if m.x_invalid {
                 // recomputed over an invalidated dependency: invalid by the engine's own rules; not judged
             } else {
-                let want = expect + plus;
+                let want = if prog.via && *which == "X" && !m.via { -1 } else { expect + plus };
                 let scope = if *which == "D" && x_ok { ":dependant_only" } else { "" };
                 match got {
                     Ok(v) if *v == want => {}
@@ -1080,7 +1131,11 @@ impl ExpertWorld {
         // the wedge reported above, not a second defect)
         let pending_before = self.model.stale_pending;
         if stale_called && !self.model.x_dead() && !wedged {
-            if !self.model.nec {
+            if !self.model.nec && nec_before && recomputes_after_stale > 0 {
+                // `via` programs: the node was needed when the stabilise began, ran after the call, and was dropped by the
+                // regular bind above it only later in the same stabilise: the forced recompute has happened
+                self.note("make_stale_served_before_unneeded");
+            } else if !self.model.nec {
                 // called while nobody needs the expert node (its driver is kept running by an observer of its own):
                 // the one recompute it forces is due at the first stabilise in which the node is needed again
                 self.model.stale_pending = true;
@@ -1142,6 +1197,7 @@ impl World for ExpertWorld {
             stale_prev: false,
             stale_pending: false,
             removed_stale_child: false,
+            via: true,
         };
         let (real, dead, explain) = match built {
             Ok(r) => (Some(r), false, String::new()),
@@ -1204,6 +1260,9 @@ impl World for ExpertWorld {
             } else {
                 out.push(Act::DropD);
             }
+        }
+        if p.via {
+            out.push(Act::ToggleVia);
         }
         if p.cons == Cons::Sum {
             if p.stale {
@@ -1306,7 +1365,7 @@ impl World for ExpertWorld {
             m.stale_prev as u8,
             m.removed_stale_child as u8
         ));
-        s.push_str(&format!(" sp{}", m.stale_pending as u8));
+        s.push_str(&format!(" sp{} via{}", m.stale_pending as u8, m.via as u8));
         let s = abbreviate_incr_values(&s);
         Some(canonicalise_dump(&s))
     }
